@@ -35,6 +35,7 @@ EXPLANATION = (
     "labels of spin s and the newly occupied labels of spin s; both ends of the segment counted inside "
     "parity depend on both indices. Producer sites written as D.setdefault(k, []).append(x) are read as "
     "D[k] = D.get(k, []) + [x]. "
+    " MUT-1: get_excitations / get_fci_state / read_dets do not store into the objects they are handed (the caller's determinant dictionary is converted again with another cut-off). MINOR-1 (pitfall rule): a written-out 2 x 2 Wick minor subtracts the cross pairing M[a,d]*M[c,b]. "
 )
 NOT_DECIDED = "parity/sign conventions as formulas, the zero-variance consequence for exact trials."
 TECHNIQUE = "static analysis: cross-module index-space (label vs rank) def-use rule, pairing rules, reader format table"
